@@ -34,7 +34,7 @@ def BOUNDS(tier):
 
 
 def CONTEXTS(tier):
-    return ["root", "member", "desc", "multi"]
+    return ["root", "member", "desc", "multi", "filter_exists", "filter_count", "filter_value"]
 
 
 def SPELLINGS(tier):
@@ -142,6 +142,19 @@ def contexts(sel, target, expect_idx, ctx):
         # then target's elements (dicts {"v": i}: not arrays, no match)
         doc = {"x": target}
         return f"$..[{sel}]", doc, [(("x", i), target[i]) for i in expect_idx]
+    if ctx == "filter_exists":
+        # the selector inside an existence test of a filter: the array is the child under test
+        doc = [target, [], 0]
+        return f"$[?@[{sel}]]", doc, ([((0,), target)] if expect_idx else [])
+    if ctx == "filter_count":
+        doc = [target]
+        n = len(expect_idx)
+        return f"$[?count(@[{sel}]) == {n}]", doc, [((0,), target)]
+    if ctx == "filter_value":
+        # singular only for an index; for a slice compare the count against a wrong number
+        doc = [target]
+        n = len(expect_idx)
+        return f"$[?count(@[{sel}]) != {n}]", doc, []
     if ctx == "multi":
         # the selector twice in one segment: results concatenated, duplicates kept
         e = [((i,), target[i]) for i in expect_idx]
